@@ -211,6 +211,8 @@ def date_region(cert, pos):
 
 
 def cvc_alt_key(row):
+    if row.get("op") == "cvcAltSelf":
+        return "cvcAltSelf:L=%d:pos=%d:rcs=%s" % (row["L"], row["pos"], row["rcs"])
     if row.get("op") == "cvcAlt":
         if row["mask"] and date_region(row["orig"], row["pos"]) and row["cert"][row["pos"] - 1] > 9 and row["rc0"] == "OK":
             return DATE_KEY
@@ -421,6 +423,10 @@ def run(ctx):
         if r.get("op") in ("cmdU", "respU") and r.get("rc") == "OK":
             viol(ctx, "sm:alter-sweep:%s:len=%d:accepted" % (r["op"], len(r["apdu"])), "an altered protected APDU was accepted", {"line": brief(r, 400)})
     for r in got["cvcalt"]:
+        if r.get("op") == "cvcAltSelf":
+            if r.get("mask") and r.get("rcs") == "OK":
+                viol(ctx, "cvcAltSelf:L=%d:pos=%d:accepted" % (r["L"], r["pos"]), "an altered self-signed certificate passed the self-check mode of btokCVCUnwrap", {"line": brief(r, 400)})
+            continue
         if r.get("mask") and (r.get("rck") == "OK" or r.get("rcv") == "OK" or r.get("rcv2") == "OK"):
             viol(ctx, "cvcAlt:L=%d:pos=%d:accepted-with-key" % (r["L"], r["pos"]), "an altered certificate verified under the issuer's key", {"line": brief(r, 400)})
 
